@@ -104,6 +104,14 @@ func (w *World) resolveType(name string, cur *types.Package, declPkg string) typ
 		if tn, ok := p.Scope().Lookup(name).(*types.TypeName); ok {
 			return tn.Type()
 		}
+		for _, imp := range p.Imports() {
+			if !strings.HasPrefix(imp.Path(), modulePath) {
+				continue
+			}
+			if tn, ok := imp.Scope().Lookup(name).(*types.TypeName); ok && tn.Exported() {
+				return tn.Type()
+			}
+		}
 	}
 	return nil
 }
